@@ -1072,6 +1072,16 @@ static void scenario(const char *params)
 
     struct xcm_attr_map *at = mk_attrs(B.blocking);
     g_server = xcm_server_a(g_addr, at);
+    /* utls binds a UX name derived from the port: abstract AF_UNIX names are shared by every process of the
+       machine, and the port carries only pid % 20000 - step aside if somebody else's run holds it (the port is
+       part of no observation, so this cannot make a replay diverge) */
+    for (int k = 1; !g_server && errno == EADDRINUSE && k < 40; k++) {
+        char *colon = strrchr(g_addr, ':');
+        if (!colon || !strncmp(g_tp, "ux", 2))
+            break;
+        snprintf(colon + 1, 8, "%d", 41000 + (getpid() * 7 + k * 997) % 20000);
+        g_server = xcm_server_a(g_addr, at);
+    }
     xcm_attr_map_destroy(at);
     if (!g_server)
         mc_fail("internal/server-create", "xcm_server_a(%s): %s", g_addr, errname(errno));
